@@ -341,11 +341,11 @@ def naming_makers(tier, seed, scope='full', max_secs=None, per_shape=1):
     for n, (shape, naming, pps) in enumerate(specs):
         out.append(maker(shape, naming, pps, None))
         if tier == 'quick' and scope != 'full':
-            fmts = [FORMATS[n % 3]] if (naming.startswith('mix:') or (naming.startswith('all:') and n % 2 == 0)) else []
+            fmts = [FORMATS[(n + n // len(modes)) % 3]] if (naming.startswith('mix:') or (naming.startswith('all:') and n % 2 == 0)) else []
         elif tier == 'quick' or scope != 'full':
-            fmts = [FORMATS[n % 3]] if (naming.startswith(('all:', 'mix:')) or n % 4 == 0) else []
+            fmts = [FORMATS[(n + n // len(modes)) % 3]] if (naming.startswith(('all:', 'mix:')) or n % 4 == 0) else []
         else:
-            fmts = FORMATS if naming.startswith(('all:', 'mix:')) else [FORMATS[n % 3]]
+            fmts = FORMATS if naming.startswith(('all:', 'mix:')) else [FORMATS[(n + n // len(modes)) % 3]]
         for fmt in fmts:
             wit, make = maker(shape, naming, pps, fmt)
             if make() is not None:          # the library may refuse to write / read a document; then there is no original
